@@ -287,16 +287,20 @@ def run(tier):
         raise vlib.MachineryError("behaviour export failed: %s %s" % (gen.error, gen.violation))
     behs = vlib.parse_behaviours(gen.out)
     gen.out = ""
-    script = vlib.to_script(behs)
     nt = set()
     ck.notes["replayed_behaviours"] = {}
     ck.notes["replay_mismatches"] = {}
     for api, exe in drivers:
-        recs, _ = vlib.run_driver(exe, script)
+        recs = vseam.run_parallel(exe, behs)
         by = vlib.group_records(recs)
         mms = vlib.compare(behs, recs, match)
+        seen = {}
         for mm in mms:
-            ck.violation(signature(mm, prev_of(by, mm), api),
+            sig = signature(mm, prev_of(by, mm), api)
+            seen[sig] = seen.get(sig, 0) + 1
+            if seen[sig] > 2:
+                continue          # same action, same class, same symptom: two written-out cases are enough
+            ck.violation(sig,
                          {"binding": "A(replay)", "api": api, "behaviour": behs[mm["b"]][:mm["i"] + 1], "step": mm["i"],
                           "why": mm["why"], "record": mm["rec"]})
         for b, beh in enumerate(behs):
@@ -305,8 +309,8 @@ def run(tier):
         ck.cov["evaluations"] += len(behs)
         ck.notes["replayed_behaviours"][api] = len(behs)
         ck.notes["replay_mismatches"][api] = len(mms)
+        ck.notes.setdefault("replay_mismatch_signatures", {}).update(seen)
     samples = [vlib.sample_repr(b) for b in behs[len(behs) // 2: len(behs) // 2 + 2]]
-    del script
 
     # 3. binding B: recorded executions at production sizes validated by TLC
     hist = gen_histories(ck, cfg["nhist"], cfg["steps"])
@@ -314,7 +318,7 @@ def run(tier):
     accepted = 0
     for api, exe in drivers:
         for tag, hs in (("main", hist), ("big", big)):
-            recs2, _ = vlib.run_driver(exe, vlib.to_script(hs))
+            recs2 = vseam.run_parallel(exe, hs, nproc=4)
             if validate(ck, "%s_%s" % (api, tag), hs, recs2, api):
                 accepted += len(hs)
             by2 = vlib.group_records(recs2)
